@@ -311,6 +311,15 @@ def run(chk, facts, tier, only=None):
                                     root, used = chain_root(par, it["recv"], NON_LENGTHENING)
                                     found = root == wname
             good = good and found
+        if not oks:
+            # the other idiom: `coll.iter().position(p).ok_or_else(..)` as the value of the function: position() yields an index of `coll`
+            tail = unblock(g["body"].get("e")) if g["body"].get("e") else {}
+            e = untry(tail)
+            if e.get("k") == "mcall" and e["m"] in ("ok_or_else", "ok_or"):
+                pz = untry(e["recv"])
+                if pz.get("k") == "mcall" and pz["m"] in ("position", "rposition"):
+                    root, used = chain_root(par, pz["recv"], NON_LENGTHENING)
+                    good = root == wname
         _memo["ib"] = good
         return good
 
